@@ -1346,6 +1346,9 @@ def _run(ctx):
         for c in ['epitope', 'subject'][:rng.choice([0, 0, 1, 2])]:
             meta[c] = [rng.choice(['x', 'y', 'z']) if c == 'epitope' else rng.randint(1, 3) for _ in range(n)]
         cols = ('cdr3a', 'cdr3b') if k % 4 else ('CDR3A', 'CDR3B')
+        if mode == 'paired' and k % 6 == 5:
+            cols = (0, 1)                     # pd.DataFrame(list_of_pairs): integer column labels, one of them falsy (seeded change C19-r6m1)
+            ctx.count('clustermap_integer_column_labels')
         link = None if k % 3 else rng.choice([dict(method='single'), dict(method='complete', optimal_ordering=True), dict(method='average')])
         clus = None if k % 4 != 1 else dict(t=rng.choice([1, 2, 3]), criterion='distance')
         ctx.count('clustermap_' + mode)
